@@ -55,6 +55,7 @@ class Sim {
   uint64_t tx_total = 0;
   long tick = 0;                 // number of COTmrService calls so far
   uint32_t tcnt = 0;             // timer driver down counter
+  uint8_t tmr_elapsed_code = 1;  // what the timer driver's Update returns when the counter reaches 0: the HAL contract is '> 0', not '1' (chosen per case from the pool size and node id)
   bool can_read_fail = false;    // next Read returns -1
   int can_send_fail = 0;         // next k Send calls return -1 (frame is not logged)
   uint64_t send_calls = 0;
@@ -83,6 +84,7 @@ class Sim {
   CO_OBJ_STR *string(const std::string &s, const char *name);
   bool has(uint16_t idx, uint8_t sub) const;
   void init();                  // builds the dictionary array and calls CONodeInit
+  void reinit();              // CONodeInit on the memory as it is (second initialisation without a power cycle)
   void init_timer_only();       // minimal node: timer manager + timer driver only (C07/C08)
   void init_bare();             // node memory only (poisoned) + driver table + node id: dictionary-level tests (C06)
   void start();
